@@ -635,7 +635,7 @@ func runScanCase(ctx *Ctx, lc *LCase, caseIdx int) {
 	}
 }
 
-var scanProfile = &lprofile{prop: "C04", qmax: 600, quickCases: 1100, thorCases: 20000, raceCases: 300}
+var scanProfile = &lprofile{prop: "C04", qmax: 600, quickCases: 1100, thorCases: 7000, raceCases: 300}
 
 func init() {
 	p := scanProfile
